@@ -614,6 +614,37 @@ func TestVerifC08(t *testing.T) {
 			inputs = append(inputs, c08Input{Kind: "http", Method: "POST", Path: "/", Body: base64.StdEncoding.EncodeToString([]byte(fmt.Sprintf(`{"jsonrpc":"2.0","id":1,"method":%q%s}`, m, p))), Class: "jsonrpc/" + m + "/directed"})
 		}
 	}
+	// directed: otherwise valid requests on archived keys with exactly ONE option member hostile
+	{
+		hostile := []string{"null", "true", "false", "0", "1", "-1", "1.5", "1e40", `""`, `"x"`, `"base64"`, `"full"`, `"none"`, `"finalized"`, "[]", "{}", `[null]`, `{"a":null}`}
+		members := []string{"encoding", "commitment", "maxSupportedTransactionVersion", "transactionDetails", "rewards", "limit", "before", "until", "minContextSlot", "unknownMember"}
+		firsts := map[string][]string{
+			"getBlock":                {fmt.Sprint(g.slots[0]), fmt.Sprint(g.slots[len(g.slots)/2]), fmt.Sprint(g.slots[len(g.slots)-1])},
+			"getTransaction":          {`"` + g.sigs[0] + `"`, `"` + g.sigs[len(g.sigs)/2] + `"`},
+			"getSignaturesForAddress": {`"` + g.addrs[0] + `"`, `"` + g.addrs[len(g.addrs)/2] + `"`},
+			"getBlockTime":            {fmt.Sprint(g.slots[1])},
+		}
+		for m, fs := range firsts {
+			for _, first := range fs {
+				for _, mem := range members {
+					for _, hv := range hostile {
+						for _, base := range []string{"", `"encoding":"base64",`} {
+							if base != "" && mem == "encoding" {
+								continue
+							}
+							body := fmt.Sprintf(`{"jsonrpc":"2.0","id":1,"method":%q,"params":[%s,{%s%q:%s}]}`, m, first, base, mem, hv)
+							inputs = append(inputs, c08Input{Kind: "http", Method: "POST", Path: "/", Body: base64.StdEncoding.EncodeToString([]byte(body)), Class: "jsonrpc/" + m + "/one-hostile-option/" + mem})
+						}
+					}
+				}
+				// options position holding a non-object, and extra positional params
+				for _, hv := range hostile {
+					body := fmt.Sprintf(`{"jsonrpc":"2.0","id":1,"method":%q,"params":[%s,%s]}`, m, first, hv)
+					inputs = append(inputs, c08Input{Kind: "http", Method: "POST", Path: "/", Body: base64.StdEncoding.EncodeToString([]byte(body)), Class: "jsonrpc/" + m + "/options-not-object"})
+				}
+			}
+		}
+	}
 	rng := rand.New(rand.NewSource(seed))
 	rng.Shuffle(len(inputs), func(i, j int) { inputs[i], inputs[j] = inputs[j], inputs[i] })
 	var rin []c08Input
